@@ -133,7 +133,9 @@ Inductive iwlabel :=
 | VCloseArrive     (* the peer's close request reaches the handler *)
 | VTry             (* the lock attempt of closeNoNotify *)
 | VUnblock         (* a blocked Lock() obtains the lock *)
-| VFlushDone.      (* flushed; lock released; request answered *)
+| VFlushDone       (* flushed; lock released; request answered *)
+| CLocalClose.     (* Conn.Close by the application: flush under the lock, close handshake (a blocking call
+                      whose response is closed on every path: section 1), stream closed *)
 
 Definition writer_holds (s : iwstate) : bool :=
   match iw_w s with WHold | WWait => true | _ => false end.
@@ -188,6 +190,13 @@ Definition iw_step (blocking escape : bool) (s : iwstate) (l : iwlabel) : option
       | VBlocked => if writer_holds s then None else Some (mkiw (iw_w s) VFlush (iw_aborted s) (iw_closed s) (iw_broken s))
       | _ => None
       end
+  | CLocalClose =>
+      (* takes writeLock for the flush: not while a writer holds it; the handshake needs the serve goroutine *)
+      if writer_holds s || iw_closed s then None
+      else match iw_v s with
+           | VIdle => Some (mkiw (iw_w s) VIdle (iw_aborted s) true (iw_broken s))
+           | _ => None
+           end
   | VFlushDone =>
       match iw_v s with
       | VFlush => if escape && iw_broken s   (* writeBuf.Flush returns the sticky error *)
@@ -340,3 +349,80 @@ Definition ex_case_ok (c : excase) : bool :=
               Nat.eqb (ex_accepted s) (xc_accepted c)
   | None => false
   end.
+
+(* ====================================================================== *)
+(* 4. The id a blocking call registers and the id on the wire              *)
+(*    (session_iq.go SendIQ, session_message.go SendMessage,               *)
+(*    session_presence.go SendPresence: id completion; session.go          *)
+(*    getIDTyp; the stanza encoder's id completion)                        *)
+(* ====================================================================== *)
+
+(* An attribute: name space (0 = none), local name (1 = "id", 2 = "type",
+   other numbers other names), value (0 = the empty string). *)
+Record xattr := mkattr { a_space : N; a_local : N; a_val : N }.
+
+Definition is_id (a : xattr) : bool := N.eqb (a_space a) 0 && N.eqb (a_local a) 1.
+
+(* getIDTyp, id part: index and value of the first unqualified id attribute *)
+Fixpoint find_id (attrs : list xattr) (k : nat) : option (nat * N) :=
+  match attrs with
+  | [] => None
+  | a :: rest => if is_id a then Some (k, a_val a) else find_id rest (S k)
+  end.
+
+Fixpoint set_val (attrs : list xattr) (k : nat) (v : N) : list xattr :=
+  match attrs, k with
+  | [], _ => []
+  | a :: rest, O => mkattr (a_space a) (a_local a) v :: rest
+  | a :: rest, S k' => a :: set_val rest k' v
+  end.
+
+(* When an id is generated. *)
+Inductive gencond :=
+| GenWhenEmpty     (* the code: whenever the element has no id value (no attribute, or id="") *)
+| GenWhenAbsent.   (* only when there is no id attribute at all *)
+
+(* Send*: (registration key, start element that is sent) *)
+Definition complete_id (g : gencond) (attrs : list xattr) (fresh : N) : N * list xattr :=
+  match find_id attrs 0 with
+  | None => (fresh, attrs ++ [mkattr 0 1 fresh])
+  | Some (k, v) =>
+      if N.eqb v 0 then
+        match g with
+        | GenWhenEmpty => (fresh, set_val attrs k fresh)
+        | GenWhenAbsent => (0%N, attrs)
+        end
+      else (v, attrs)
+  end.
+
+(* the stanza encoder: an element that goes out with an empty id gets a fresh one *)
+Definition encoder_id (attrs : list xattr) (fresh2 : N) : list xattr :=
+  match find_id attrs 0 with
+  | None => attrs ++ [mkattr 0 1 fresh2]
+  | Some (k, v) => if N.eqb v 0 then set_val attrs k fresh2 else attrs
+  end.
+
+(* the id the peer sees *)
+Definition wire_id (attrs : list xattr) : N :=
+  match find_id attrs 0 with Some (_, v) => v | None => 0%N end.
+
+Definition send_ids (g : gencond) (attrs : list xattr) (fresh fresh2 : N) : N * N :=
+  let (key, sent) := complete_id g attrs fresh in (key, wire_id (encoder_id sent fresh2)).
+
+(* the four shapes of a request's id: 0 none, 1 id="", 2 chosen, 3 qualified only *)
+Definition id_shape (form : nat) (v : N) : list xattr :=
+  match form with
+  | 0 => [mkattr 0 2 5]
+  | 1 => [mkattr 0 1 0; mkattr 0 2 5]
+  | 2 => [mkattr 0 2 5; mkattr 0 1 v]
+  | _ => [mkattr 7 1 v; mkattr 0 2 5]
+  end.
+
+Record idcase := mkidcase { ic_form : nat; ic_chosen : N; ic_key_is_wire : bool; ic_wire_is_chosen : bool }.
+
+(* the harness reports whether a reply carrying the wire id reached the call
+   (key = wire id) and whether the wire id is the caller's own *)
+Definition id_case_ok (g : gencond) (c : idcase) : bool :=
+  let (key, wire) := send_ids g (id_shape (ic_form c) (ic_chosen c)) 1000 2000 in
+  Bool.eqb (N.eqb key wire) (ic_key_is_wire c) &&
+  Bool.eqb (N.eqb wire (ic_chosen c)) (ic_wire_is_chosen c).
